@@ -476,3 +476,38 @@ pub fn replay_events(t: &Tables, input: &str, output: &str) -> Value {
     }
     json!({"events": n})
 }
+
+// ---------------------------------------------------------------------------------------------
+// time control: parse_go_command + calculate_time_slice through the verification wrapper
+// ---------------------------------------------------------------------------------------------
+pub fn slice_events(input: &str, output: &str) -> Value {
+    use crate::time_control::GameTime;
+    use std::io::Write;
+    let lines: Vec<String> = serde_json::from_str(&std::fs::read_to_string(input).unwrap()).unwrap();
+    let mut out = std::fs::File::create(output).unwrap();
+    let mut n = 0;
+    let clamp = |x: u128| -> i64 { if x > 2_000_000_000 { 2_000_000_000 } else { x as i64 } };
+    let ci = |x: i128| -> i64 { x.clamp(-2_000_000_000, 2_000_000_000) as i64 };
+    for line in &lines {
+        let cleaned = crate::utils::clean_input(line);
+        let toks: Vec<&str> = cleaned.split(' ').collect();
+        let r = catch_unwind(AssertUnwindSafe(|| {
+            let gt = crate::uci::verif_parse_go_command(&toks);
+            let sw = gt.calculate_time_slice(PieceColor::White);
+            let sb = gt.calculate_time_slice(PieceColor::Black);
+            // the same go with the OTHER side's clock / increment changed
+            let alt_w = GameTime { wtime: gt.wtime, winc: gt.winc, btime: gt.btime / 2 + 777, binc: gt.binc + 333, movestogo: gt.movestogo };
+            let alt_b = GameTime { btime: gt.btime, binc: gt.binc, wtime: gt.wtime / 2 + 777, winc: gt.winc + 333, movestogo: gt.movestogo };
+            (gt.wtime, gt.btime, gt.winc, gt.binc, gt.movestogo, sw, sb, alt_w.calculate_time_slice(PieceColor::White), alt_b.calculate_time_slice(PieceColor::Black))
+        }));
+        let ev = match r {
+            Ok((wt, bt, wi, bi, mtg, sw, sb, aw, ab)) => json!({"ev": "slice", "line": line, "toks": toks,
+                "parsed": {"wtime": ci(wt), "btime": ci(bt), "winc": ci(wi), "binc": ci(bi), "movestogo": mtg.unwrap_or(0)},
+                "slice_w": clamp(sw), "slice_b": clamp(sb), "slice_w_alt": clamp(aw), "slice_b_alt": clamp(ab)}),
+            Err(_) => json!({"ev": "slice", "line": line, "toks": toks, "panic": true}),
+        };
+        writeln!(out, "{}", ev).unwrap();
+        n += 1;
+    }
+    json!({"events": n})
+}
